@@ -625,7 +625,7 @@ func (r *runner) fuzzRun(target string, budget, workers int, tr *targetResult) {
 				// seed passed this check's CPU-time watchdog in the seed run, so this is load
 				c.Count("engine_wallclock_timer_kills_not_confirmed", 1)
 				tr.BenignRestarts++
-				if tr.BenignRestarts > 4*maxRestarts {
+				if tr.BenignRestarts > 10*maxRestarts {
 					break
 				}
 				continue
@@ -646,7 +646,7 @@ func (r *runner) fuzzRun(target string, budget, workers int, tr *targetResult) {
 			}
 			_ = os.Rename(filepath.Join(corpusDir, nf), filepath.Join(aside, fmt.Sprintf("%d-%s", attempt, nf)))
 		}
-		if tr.Restarts > maxRestarts || tr.BenignRestarts > 4*maxRestarts {
+		if tr.Restarts > maxRestarts || tr.BenignRestarts > 10*maxRestarts {
 			break
 		}
 	}
